@@ -106,6 +106,21 @@ class Listener(object):
         return self._plain
 
 
+def _count_commands(buf):
+    """complete commands in what the client has written (a "+" command runs to its "." line)"""
+    n, multi = 0, False
+    for line in buf.split(b'\r\n')[:-1]:
+        if multi:
+            if line == b'.':
+                multi = False
+                n += 1
+        elif line.startswith(b'+'):
+            multi = True
+        else:
+            n += 1
+    return n
+
+
 class CtlRun(object):
     def __init__(self, sim):
         self.sim = sim
@@ -195,7 +210,7 @@ class CtlRun(object):
     def on_client_write(self, data):
         sim = self.sim
         # one in flight: all earlier commands must have been answered completely
-        k = bytes(self.conn.transport.written).count(b'\r\n')
+        k = _count_commands(bytes(self.conn.transport.written))
         delivered = self.peer.replies_delivered()
         if delivered < k:
             sim.fail(self.prop + '.command-written-while-reply-outstanding',
@@ -397,6 +412,14 @@ class CtlRun(object):
             c.wire = ('exact', text)
             sim.probe('command-as-non-ascii-bytes')
             d = self.proto.queue_command(text.encode('latin-1'))
+        elif kind == 'plain' and self.prop == 'C01' and not post_loss and ch.chance(1, 12, 'multiline'):
+            # a multi-line command (control-spec 2.2; +LOADCONF, +POSTDESCRIPTOR, +HSPOST are such): keyword line, data
+            # lines, a line with a single dot - handed over like any other command, and written verbatim like any other
+            data = ['data %d.%d %s' % (idx, j, ch.pick(['', 'x y', '250 OK', 'a=b'], 'mldata')) for j in range(1 + ch.draw(3, 'mllines'))]
+            c.text = text = '+XPOST%d purpose=x\r\n%s\r\n.' % (idx, '\r\n'.join(data))
+            c.wire = ('exact', text)
+            sim.probe('multi-line-command')
+            d = self.proto.queue_command(text if ch.chance(1, 2, 'mlstr') else text.encode('ascii'))
         elif kind == 'plain':
             d = self.proto.queue_command(text)
         elif kind == 'rawcb':
